@@ -1509,3 +1509,63 @@ func c01R16(c *Ctx, r *Report) {
 	}
 	r.Floor(rule, n, 1, "compound-assignment operators emitted")
 }
+
+// ---- C17.R14: storing to a present key does not move the entries --------------------------------------------
+
+func init() {
+	lateInits = append(lateInits, func() {
+		props["C17"].Quick = append(props["C17"].Quick, c17R14)
+		props["C17"].Explanation += " (R14) in map.c a function that has an update path (a loop that finds the key with equals_fn and returns) calls the rehashing ferret_map_resize only after that loop: storing to a present key leaves every entry in its bucket, so an iteration in progress still visits each key once."
+	})
+}
+
+func c17R14(c *Ctx, r *Report) {
+	const rule = "C17.R14"
+	r.Describe(rule, "map.c: in every function whose body has a top-level loop that looks the key up (equals_fn) and returns, each call to ferret_map_resize comes, in statement order, after that loop")
+	cf := cLoad(c, r, rule, "runtime/core/map.c")
+	if cf == nil {
+		return
+	}
+	n := 0
+	for _, name := range cf.Order {
+		fn := cf.Funcs[name]
+		if fn.Body() == nil || name == "ferret_map_resize" {
+			continue
+		}
+		updateIdx, resizeIdx := -1, -1
+		var resizeNode *CNode
+		for i, st := range fn.Body().Inner {
+			if st.Kind == "WhileStmt" || st.Kind == "ForStmt" || st.Kind == "DoStmt" {
+				lookup, returns := false, false
+				st.Walk(func(x *CNode) bool {
+					if x.Kind == "CallExpr" && len(x.Inner) > 0 {
+						if m := x.Inner[0].strip(); m != nil && m.Kind == "MemberExpr" && m.Name == "equals_fn" {
+							lookup = true
+						}
+					}
+					if x.Kind == "ReturnStmt" {
+						returns = true
+					}
+					return true
+				})
+				if lookup && returns && updateIdx < 0 {
+					updateIdx = i
+				}
+			}
+			st.Walk(func(x *CNode) bool {
+				if x.Kind == "CallExpr" && x.Callee() == "ferret_map_resize" && resizeIdx < 0 {
+					resizeIdx = i
+					resizeNode = x
+				}
+				return true
+			})
+		}
+		if resizeIdx < 0 || updateIdx < 0 {
+			continue
+		}
+		n++
+		r.Check(updateIdx < resizeIdx, rule, "map.c:"+name, "the table grows only for a new key", c.cpos(cf, resizeNode),
+			"the table is rehashed before the key is looked up: `for k, v in m { m[k] = v + 1; }` on a map at its load threshold (12 entries in 16 buckets) moves the entries under the running iteration, which then visits a key twice (13 visits, one value incremented twice)")
+	}
+	r.Floor(rule, n, 1, "functions of map.c that update in place and may grow the table")
+}
